@@ -26,6 +26,16 @@ pub struct RawClient {
     pub last_status: AtomicU32,
     pub requests: AtomicU64,
     events: (Sender<DiagnosticEvent>, Receiver<DiagnosticEvent>),
+    /// observer of every request/response pair, called in wire order (C20 records fetches and commits here)
+    pub tap: std::sync::Mutex<Option<Tap>>,
+}
+
+#[derive(Clone)]
+pub struct Tap(pub std::sync::Arc<dyn Fn(u32, &Bytes, Result<&[u8], u32>) + Send + Sync>);
+impl std::fmt::Debug for Tap {
+    fn fmt(&self, f: &mut std::fmt::Formatter<'_>) -> std::fmt::Result {
+        f.write_str("Tap")
+    }
 }
 
 impl RawClient {
@@ -39,6 +49,7 @@ impl RawClient {
             last_status: AtomicU32::new(0),
             requests: AtomicU64::new(0),
             events: broadcast(16),
+            tap: std::sync::Mutex::new(None),
         })
     }
 
@@ -110,9 +121,13 @@ impl RawClient {
             }
             Ok::<_, std::io::Error>((status, body))
         };
+        let tap = self.tap.lock().unwrap().clone();
         match io.await {
             Ok((status, body)) => {
                 self.last_status.store(status, Ordering::SeqCst);
+                if let Some(tap) = tap {
+                    (tap.0)(code, &payload, if status == 0 { Ok(&body[..]) } else { Err(status) });
+                }
                 if status != 0 {
                     return Err(IggyError::from_code(status));
                 }
